@@ -182,8 +182,7 @@ node<P> CoverTreeWrapper<P, DistanceCallback>::batch_insert(DistanceCallback& dc
     else
     {
         ScalarType max_dist = max_set(point_set); // O(|point_set|)
-        int next_scale = std::min(max_scale - 1, get_scale(max_dist));
-        if (next_scale == -2147483647 - 1) // We have points with distance 0.
+        if (max_dist == 0.) // We have points with distance 0 (their scale is not representable).
         {
             v_array<node<P>> children;
             push(children, new_leaf(p));
@@ -203,6 +202,7 @@ node<P> CoverTreeWrapper<P, DistanceCallback>::batch_insert(DistanceCallback& dc
         }
         else
         {
+            int next_scale = std::min(max_scale - 1, get_scale(max_dist));
             v_array<ds_node<P>> far = pop(stack);
             split(point_set, far, max_scale); // O(|point_set|)
 
